@@ -65,7 +65,8 @@ def check_merge(r, lib, only_order=False):
          key="A9.anchor")
     if len(ms) != 1:
         return
-    b = ms[0]
+    from .common import look_through_private
+    b = look_through_private(lib, ms[0])
     fn = b.name
     # result local
     res = None
@@ -230,6 +231,10 @@ def iteration_outcomes(b, l, inner, res):
             if st["k"] == "assign" and not st["place"]["p"]:
                 lcl = st["place"]["l"]
                 rv = st["rv"]
+                if rv["k"] == "agg" and rv.get("adt") == "necessity::Necessity":
+                    bd[("v", lcl)] = (rv["variant"], tuple(sorted(role(term_of(b, rv["ops"][0]))))) if rv["ops"] else (rv["variant"], ())
+                elif rv["k"] == "use" and mir.op_place(rv["op"]) is not None and not mir.op_place(rv["op"])["p"] and ("v", mir.op_place(rv["op"])["l"]) in bd:
+                    bd[("v", lcl)] = bd[("v", mir.op_place(rv["op"])["l"])]
                 if rv["k"] == "use" and "const" in rv["op"] and "bool" in rv["op"]["const"]:
                     bd[lcl] = rv["op"]["const"]["bool"]
                 elif rv["k"] == "use" and mir.op_place(rv["op"]) is not None and not mir.op_place(rv["op"])["p"] and mir.op_place(rv["op"])["l"] in bd:
@@ -249,6 +254,11 @@ def iteration_outcomes(b, l, inner, res):
                     val = strip(term_of(b, t["args"][1]))
                     variant = val[2] if val[0] == "agg" else "?"
                     payload_roles = role(val)
+                    vp = mir.op_place(t["args"][1])
+                    if val[0] == "local" and ("v", val[1]) in bd:
+                        variant, payload_roles = bd[("v", val[1])][0], set(bd[("v", val[1])][1])
+                    elif vp is not None and not vp["p"] and ("v", vp["l"]) in bd:
+                        variant, payload_roles = bd[("v", vp["l"])][0], set(bd[("v", vp["l"])][1])
                     npushed = pushed + ((variant, tuple(sorted(payload_roles))),)
                     if len(npushed) > 3:
                         problems.append("more than three pushes on one path of an iteration")
@@ -275,14 +285,14 @@ def iteration_outcomes(b, l, inner, res):
                         for v in ("Some", "None"):
                             tg = mir.variant_target(sw2, b, v)
                             if tg is not None:
-                                stack.append((tg, tuple(sorted(bd.items())), frozenset(ev | ({("scan-exhausted",)} if v == "None" else set())), npushed))
+                                stack.append((tg, tuple(sorted(bd.items(), key=lambda kv: str(kv[0]))), frozenset(ev | ({("scan-exhausted",)} if v == "None" else set())), npushed))
                         continue
                     if sw2["enum"] == "necessity::Necessity":
                         rl = tuple(sorted(role(pt)))
                         for v in sw2["variants"]:
                             tg = mir.variant_target(sw2, b, v)
                             if tg is not None:
-                                stack.append((tg, tuple(sorted(bd.items())), frozenset(ev | {("tag", rl, v)}), npushed))
+                                stack.append((tg, tuple(sorted(bd.items(), key=lambda kv: str(kv[0]))), frozenset(ev | {("tag", rl, v)}), npushed))
                         continue
                 # bool result of an equality call
                 ct = strip(term_of(b, t["op"])) if opl is not None else ("x",)
@@ -296,10 +306,10 @@ def iteration_outcomes(b, l, inner, res):
                             truth = not truth
                         if b.is_unreachable_block(blk2):
                             continue
-                        stack.append((blk2, tuple(sorted(bd.items())), frozenset(ev | {("payload-eq", pair, a_in, truth)}), npushed))
+                        stack.append((blk2, tuple(sorted(bd.items(), key=lambda kv: str(kv[0]))), frozenset(ev | {("payload-eq", pair, a_in, truth)}), npushed))
                     continue
         for s in succ:
-            stack.append((s, tuple(sorted(bd.items())), frozenset(ev), npushed))
+            stack.append((s, tuple(sorted(bd.items(), key=lambda kv: str(kv[0]))), frozenset(ev), npushed))
     return outcomes, problems
 
 
